@@ -177,7 +177,7 @@ def gen_tables(ctx, rng):
                         continue
                     yield {"kind": "dec", "ids": list(range(n)), "table": [list(t[:n]), list(t[n:])],
                            "costs": None, "q": q, "extra": 1, "shape": "exhaustive"}
-    for _ in range(ctx.n(300, 30000)):
+    for _ in range(ctx.n(300, 100000)):
         n = rng.choice([1, 2, 2, 3, 3, 4, 5, 6, 8, 12, 20])
         dup = rng.random() < 0.25
         ids = _ids(rng, n, dup)
@@ -187,7 +187,7 @@ def gen_tables(ctx, rng):
         q = rng.randint(1, n) if r < 0.8 else (n + rng.randint(1, 2) if r < 0.9 else n)
         yield {"kind": "disc", "ids": ids, "idvals": _values(rng, shape, k), "q": q,
                "extra": rng.randint(0, 2), "shape": shape + ("+dup" if dup else "")}
-    for _ in range(ctx.n(300, 30000)):
+    for _ in range(ctx.n(300, 100000)):
         n = rng.choice([1, 2, 3, 3, 4, 5, 6, 8, 12])
         m = rng.randint(1, 4)
         dup = rng.random() < 0.25
@@ -398,7 +398,7 @@ AD_FUNCS = {
 
 
 def gen_runs(ctx, rng):
-    total = ctx.n(66, 2200)
+    total = ctx.n(66, 6600)
     names = list(RUN_ALGS)
     for k in range(total):
         # every algorithm in turn (worker-shifted), parameters random
@@ -441,6 +441,29 @@ def gen_runs(ctx, rng):
             case["contraction"] = rng.choice([1.0, 2.0, 4.0, 8.0])
             case["eps"] = rng.choice([0.05, 0.2])
             case["noise_var"] = rng.choice([0.01, 0.0625])
+            case["noise"] = rng.choice(["seeded", "zero"])
+            if rng.random() < 0.7:
+                # many designs and sparse active sets: CPython iterates a set of small ints in hash order,
+                # which differs from sorted order once indices >= 8 are present in a partly filled table —
+                # `points[list(A)]`, `add_sample(A, …)` and any `sorted(A)` then disagree on the order
+                K = rng.randint(12, 40)
+                pts = set()
+                while len(pts) < K:
+                    pts.add(tuple(core.dyadic(rng, 0, 64, 4) for _ in range(d)))
+                X = [list(p) for p in sorted(pts)]
+                rng.shuffle(X)
+                # distinct values per design (so a misfiled observation is visible even without noise)
+                Y = [[core.dyadic(rng, -64, 64, 4) + i / 1024.0 for _ in range(m)] for i in range(K)]
+                case.update({"X": X, "Y": Y})
+                if case["geom"] == "real":
+                    case["geom"] = {"pd": rng.choice([0.0, 0.03, 0.1]), "pc": rng.choice([0.6, 0.9, 0.97])}
+                if alg != "NaiveElimination" and rng.random() < 0.7:
+                    ids = list(range(K))
+                    rng.shuffle(ids)
+                    ns = rng.randint(3, 10)
+                    nu = rng.randint(0, 4) if alg == "PaVeBa" else 0
+                    np_ = rng.randint(0, 4)
+                    case["force"] = {"S": ids[:ns], "U": ids[ns:ns + nu], "P": ids[ns:ns + nu + np_]}
         if alg == "NaiveElimination":
             case["L"] = rng.randint(1, 4)
         yield case
@@ -664,8 +687,15 @@ def run_alg(ctx, case):
         ds, coin = alg.design_space, np.random.RandomState((case["seed"] + 5) % (2 ** 32))
         ds.should_refine_design = lambda model, i, scale: bool(ds.point_depths[i] < ds.max_depth
                                                                and coin.random_sample() < 0.5)
+    if case.get("force"):
+        # a legitimate reachable shape of the sets (S ∩ P = ∅, U ⊆ P), installed before the first round
+        alg.S, alg.P = set(case["force"]["S"]), set(case["force"]["P"])
+        if hasattr(alg, "U"):
+            alg.U = set(case["force"]["U"])
+        ctx.count("run_forced_sets")
+    noise = stubs.zero_noise() if case.get("noise") == "zero" else stubs.seeded_noise(case["seed"])
     try:
-        with fw, opt, geom, stubs.seeded_noise(case["seed"]):
+        with fw, opt, geom, noise:
             for _ in range(case["rounds"]):
                 if name == "NaiveElimination":
                     before = {"samples": alg.samples.copy(), "p0": len(proxy.calls), "count": alg.sample_count,
@@ -1215,6 +1245,19 @@ def _check_evalall(ctx, case, name, alg, rec, pcalls, adds):
         _viol(ctx, "data-emp", f"{name}: design_samples after the step are not the old samples followed by exactly "
               "the returned observations of each design", case,
               detail={"stored_under": idx, "old_sizes": [len(s) for s in old], "new_sizes": [len(s) for s in new]})
+    order_differs = idx != sorted(idx)
+    ctx.count("run_set_order_%s_sorted" % ("differs_from" if order_differs else "equals"))
+    if case.get("noise") == "zero":
+        # noise-free observations: the new row of design i must be design i's own (distinct) value
+        truth = np.array(case["Y"], dtype=float)
+        for i in sorted(want):
+            tail = np.asarray(new[i], dtype=float)[len(old[i]):]
+            if tail.shape != (1, truth.shape[1]) or not np.array_equal(tail[0], truth[i]):
+                _viol(ctx, "data-emp", f"{name}: with noise-free observations the sample appended for design {i} is "
+                      "not that design's own value", case, detail={"design": i, "appended": tail.tolist(),
+                                                                   "own_value": truth[i].tolist()})
+                break
+        ctx.count("run_zero_noise_value_checks")
     obs = [[] for _ in old]
     for k, i in enumerate(queried):
         obs[i] = [float(v) for v in Yq[k]]
@@ -1250,6 +1293,8 @@ def _check_naive(ctx, case, alg, proxy, before):
     old, new = before["samples"], alg.samples
     ok = new.shape == (n, old.shape[1] + 1, old.shape[2]) and np.array_equal(new[:, :-1, :], old)
     ok = ok and all(np.array_equal(new[i, -1, :], Y[k]) for k, i in enumerate(queried))
+    if ok and case.get("noise") == "zero":
+        ok = np.array_equal(new[:, -1, :], np.array(case["Y"], dtype=float))
     if not ok:
         _viol(ctx, "data-naive", "NaiveElimination: the sample array after the round is not the old samples followed "
               "by the returned observation of each design", case)
